@@ -311,9 +311,48 @@ func (w *World) foreign(f *Form, allowed func(vi *VarInfo) bool) []string {
 	return msgs
 }
 
+// opaqueIn reports an opaque symbol in a form: the comparison is then
+// undecided (the cause is reported by the range clause or named here).
+func (w *World) opaqueIn(f *Form, sumName string) string {
+	for _, t := range f.ts {
+		if vi := w.Var(t.v); vi.Kind == VOpaque {
+			return fmt.Sprintf("undecided: %s depends on %s, the result of an operation that left the affine/layout domain", sumName, vi.Name)
+		}
+	}
+	return ""
+}
+
+// strayRemainder names the latest remainder (division identity) that is
+// left over in got but not expected: a carry that was dropped or added at
+// the wrong weight.
+func (w *World) strayRemainder(got, want *Form, sumName string) string {
+	best := -1
+	var coef *big.Rat
+	for _, t := range got.ts {
+		vi := w.Var(t.v)
+		if vi.Kind == VRem && want.Coef(t.v).Cmp(t.c) != 0 && vi.Parent >= best {
+			if vi.Parent > best || coef == nil {
+				coef = t.c
+			}
+			best = vi.Parent
+		}
+	}
+	if best < 0 {
+		return ""
+	}
+	ri := w.rems[best]
+	return fmt.Sprintf("the remainder of the word divided by 2^%d at %s does not cancel in %s (its bit 0 keeps the coefficient %s): the quotient (carry) of that step is dropped or added at the wrong weight", ri.K, ri.Pos, sumName, prettyRat(coef))
+}
+
 // diffExact compares got and want coefficient by coefficient.
 func (w *World) diffExact(got, want *Form, sumName, cellName string, cells []*Int, offs []uint) []string {
+	if m := w.opaqueIn(got, sumName); m != "" {
+		return []string{m}
+	}
 	var msgs []string
+	if m := w.strayRemainder(got, want, sumName); m != "" {
+		msgs = append(msgs, m)
+	}
 	for _, v := range unionVars(got, want) {
 		g, e := got.Coef(v), want.Coef(v)
 		if g.Cmp(e) == 0 {
@@ -323,6 +362,8 @@ func (w *World) diffExact(got, want *Form, sumName, cellName string, cells []*In
 		switch {
 		case vi.Kind == VOpaque:
 			msgs = append(msgs, fmt.Sprintf("undecided: %s depends on %s, the result of an operation outside the affine/layout domain", sumName, vi.Name))
+		case vi.Kind == VRem && len(msgs) > 0:
+			continue // summarised by strayRemainder
 		case e.Sign() == 0 && (vi.Kind == VBit || vi.Kind == VSym):
 			msgs = append(msgs, fmt.Sprintf("%s %s (must be ignored): its coefficient in %s is %s, want 0", vi.Name, attribution(v, cellName, cells, offs), sumName, prettyRat(g)))
 		case e.Sign() == 0:
@@ -359,6 +400,9 @@ func ratModP(r *big.Rat, p *big.Int) (*big.Int, bool) {
 // every coefficient of got-want is p times a dyadic rational then got-want,
 // which is an integer, is a multiple of the odd prime p.
 func (w *World) diffModP(got, want *Form, sumName, cellName string, cells []*Int, offs []uint) []string {
+	if m := w.opaqueIn(got, sumName); m != "" {
+		return []string{m}
+	}
 	var msgs []string
 	p := P25519
 	for _, v := range unionVars(got, want) {
